@@ -62,11 +62,16 @@ func c20Drivers() []c20Cfg {
 	S := func(k int) c20Op { return c20Op{"set", k} }
 	D := func(k int) c20Op { return c20Op{"del", k} }
 	W := c20Op{"wait", 0}
+	E := c20Op{"est", 0}
 	return []c20Cfg{
 		{"W1-two-waiters", 10, 4, 2, [][]c20Op{{S(1), W}, {S(2), W}}},
 		{"W2-three-waiters", 10, 4, 2, [][]c20Op{{S(1), W}, {W}, {S(2), W}}},
 		{"W3-full-queue", 10, 2, 2, [][]c20Op{{S(1), S(2), S(3), W}, {W}}},
 		{"W4-delete-evict", 1, 2, 2, [][]c20Op{{S(1), D(1), W}, {S(2), S(3), W}}},
+		// other users of the policy lock (size poll, expiry tick, reader) while markers are in flight; batch size 4 and 8
+		{"W5-size-poller", 10, 4, 4, [][]c20Op{{S(1), W}, {E, E}, {S(2), W}}},
+		{"W6-tick", 10, 4, 4, [][]c20Op{{S(1), W}, {c20Op{"tick", 0}}, {W}}},
+		{"W7-size-poller-b8", 10, 4, 8, [][]c20Op{{S(1), S(2), W}, {E, E}}},
 	}
 }
 
@@ -100,6 +105,12 @@ func c20Body(cfg c20Cfg) (*c20Run, func()) {
 						r.h.s.Delete(op.k)
 						r.clock++
 						w.ret = r.clock
+					case "est":
+						r.h.s.EstimatedSize() // takes the policy lock
+					case "get":
+						r.h.s.Get(op.k) // a hit ends in the read buffer; a full stripe is drained under the policy lock
+					case "tick":
+						vrt.Advance(2 * sec) // the maintenance ticker takes the policy lock
 					case "wait":
 						r.clock++
 						called := r.clock
